@@ -47,7 +47,8 @@ Definition js_stmt_text (fm : bool) (en : env) (props : list string) (s : stmt) 
   | SSet t e => js_target_text fm en props t ++ " = " ++ pp_js (to_js fm en e)
   | SCallS f args => nm en f ++ "(" ++ join ", " (map (fun e => pp_js (to_js fm en e)) args) ++ ")"
   | SLCallS f args => "fn_call(" ++ nth f (e_lfuncs en) "" ++ "(" ++ join ", " (map (fun e => pp_js (to_js fm en e)) args) ++ "))"
-  | SSetObj _ _ _ _ => ""      (* object properties are outside the JavaScript theorems (js_ok_s) *)
+  | SSetObj f pid o v =>
+    js_leaf (fclass f) (pp_js (js_raw_or en o (to_js fm en o))) fm ++ "." ++ nth pid (ftable f) "" ++ " = " ++ pp_js (to_js fm en v)
   end.
 
 Definition js_ok_s (en : env) (props : list string) (s : stmt) : Prop :=
@@ -61,7 +62,7 @@ Definition js_ok_s (en : env) (props : list string) (s : stmt) : Prop :=
     end
   | SCallS f args => plain_call_name (nm en f) = true /\ js_ok_args en args
   | SLCallS f args => plain_call_name (nth f (e_lfuncs en) "") = true /\ js_ok_args en args
-  | SSetObj _ _ _ _ => False
+  | SSetObj f _ o v => assignable f = true /\ js_ok en o /\ js_ok en v
   end.
 
 Lemma js_args_text fm en l : js_ok_args en l -> forall pc ind,
@@ -76,7 +77,16 @@ Qed.
 Theorem js_stmt_line fm en props s : js_ok_s en props s -> forall pc ind,
   gen_js (reify_s en props pc s) ind fm = js_line ind (js_stmt_text fm en props s).
 Proof.
-  destruct s as [t e|f args|f args|fam pid o v]; intros Hok pc ind; [| | |destruct Hok].
+  destruct s as [t e|f args|f args|fam pid o v]; intros Hok pc ind; [| | |].
+  4:{ destruct Hok as (Hfam & Ho & Hv). cbn [reify_s js_stmt_text].
+      pose proof (objref_js fm en pc o (gen_js_is_pp fm en o) Ho) as Hid.
+      pose proof (gen_js_is_pp fm en v Hv) as Hg.
+      assert (Hl : forall p1 p2 l r ls rs, gen_js l ind fm = ls -> gen_js r ind fm = rs ->
+                   gen_js (Stmt p1 (Binary "assign" p2 l r)) ind fm = js_line ind (ls ++ " = " ++ rs)).
+      { intros p1 p2 l r ls rs E1 E2. cbn [gen_js]. change (String.eqb "assign" "assign") with true. cbn iota. rewrite E1, E2.
+        unfold js_line. reflexivity. }
+      destruct fam; try discriminate Hfam; cbn [fclass];
+        (erewrite Hl; [| eapply accessor_js; [apply Hid|reflexivity] | apply Hg]; repeat rewrite sappend_assoc; reflexivity). }
   - destruct Hok as [He Ht]. cbn [reify_s js_stmt_text gen_js].
     change (String.eqb "assign" "assign") with true. cbn iota.
     rewrite (gen_js_is_pp fm en e He).
@@ -116,7 +126,7 @@ Qed.
 
 Lemma wrap_paren_reify fm en pc c : js_ok en c -> wrap_paren (reify_e en pc c) (pp_js (to_js fm en c)) = js_cond fm en c.
 Proof.
-  destruct c as [n|k|n|i|i|n|n|o x y|x|x|f args|f args|l|l|fam pid x|pid it mn]; intros Hok; unfold js_cond; cbn [reify_e]; try reflexivity; try (destruct Hok; fail).
+  destruct c as [n|k|n|i|i|n|n|o x y|x|x|f args|f args|l|l|fam pid x|pid it mn]; intros Hok; unfold js_cond; cbn [reify_e]; try reflexivity.
   - destruct (nth k (e_consts en) (CInt 0)); reflexivity.
   - cbn [js_ok] in Hok. destruct (nth i (e_locals en) (Leaf KLocal "" 0 true)); try contradiction. reflexivity.
   - destruct o; unfold wrap_paren; cbn [to_js js_binop pp_js]; rewrite ?starts_with_paren; reflexivity.
@@ -124,6 +134,7 @@ Proof.
   - rewrite reify_args_eq. destruct (reify_args en pc args); reflexivity.
   - rewrite reify_args_eq. destruct (reify_args en pc l); reflexivity.
   - rewrite reify_args_eq. destruct (reify_args en pc l); reflexivity.
+  - destruct fam; reflexivity.
 Qed.
 
 Fixpoint pp_js_p (fm : bool) (en : env) (props : list string) (ind : nat) (p : prog) : string :=
